@@ -77,6 +77,50 @@ Theorem C11_object_after_any_fits_holds_the_last_array : forall (K Sg T : Type) 
 Proof. exact @gobj_last_fit_2d. Qed.
 Print Assumptions C11_object_after_any_fits_holds_the_last_array.
 
+(* ---------------------------------------------------------------------------------------------------- *)
+(* The settings of a BycycleGroup are attributes; the user may assign new values to them between two fits
+   (bg.center_extrema = 'trough', bg.burst_method = 'amp', bg.thresholds = {...}, bg.burst_kwargs = {...},
+   bg.find_extrema_kwargs = {...}).  A history is a list of assignments (ASet k: the option set the object
+   holds from now on) and fits, from the constructor's option set k0 and any earlier state o.
+   current_kw k0 acts = the last assignment in acts, else k0. *)
+
+(* a fit after ANY such history uses the option set in force WHEN IT IS CALLED, and leaves exactly what a
+   fresh object with those settings holds after that one fit *)
+Theorem C11_fit_uses_the_settings_in_force : forall (K Sg T : Type) (cf : K -> Sg -> T)
+  (epochs : K -> list Sg -> list T) (dK : K) (dS : Sg) (dT : T)
+  (k0 : K) (o : gobj) (acts : list gaction) (f : gfit),
+  gact_run cf epochs dK dS dT (k0, o) (acts ++ [AFit f]) =
+  (current_kw k0 acts, gobj_fit cf epochs dK dS dT Unfitted (with_spec (current_kw k0 acts) f)).
+Proof. exact @gact_fit_uses_current. Qed.
+Print Assumptions C11_fit_uses_the_settings_in_force.
+
+Theorem C11_last_assignment_is_in_force : forall (K Sg : Type) (k0 k : K) (acts : list (@gaction K Sg)),
+  current_kw k0 (acts ++ [ASet k]) = k.
+Proof. exact @current_kw_set. Qed.
+Print Assumptions C11_last_assignment_is_in_force.
+
+Theorem C11_fits_leave_the_settings_alone : forall (K Sg : Type) (k0 : K) (f : gfit) (acts : list (@gaction K Sg)),
+  current_kw k0 (acts ++ [AFit f]) = current_kw k0 acts.
+Proof. exact @current_kw_fit. Qed.
+Print Assumptions C11_fits_leave_the_settings_alone.
+
+(* position by position on a 2-D array: table i = analysis of row i with the CURRENT option set, model i =
+   (that table, row i) - whatever was assigned and fitted before *)
+Theorem C11_object_after_reassignments_and_fits : forall (K Sg T : Type) (cf : K -> Sg -> T)
+  (epochs : K -> list Sg -> list T) (dK : K) (dS : Sg) (dT : T)
+  (k0 : K) (o : gobj) (acts : list gaction)
+  (sigma : list nat) (spec : kwspec) (sigs : list Sg),
+  Permutation sigma (seq 0 (length sigs)) ->
+  let k := current_kw k0 acts in
+  exists dfs models,
+    gact_run cf epochs dK dS dT (k0, o) (acts ++ [AFit (Fit2 sigma spec sigs)]) = (k, Fitted2 dfs models) /\
+    length dfs = length sigs /\ length models = length sigs /\
+    forall i, i < length sigs ->
+      nth i dfs dT = cf k (nth i sigs dS) /\
+      nth i models (dT, dS) = (cf k (nth i sigs dS), nth i sigs dS).
+Proof. exact @gact_last_fit_2d. Qed.
+Print Assumptions C11_object_after_reassignments_and_fits.
+
 (* Legacy: an unordered pool (imap_unordered) does NOT have the property *)
 Theorem C11_unordered_pool_refuted : exists (sigma : list nat) (xs : list nat),
   Permutation sigma (seq 0 (length xs)) /\ pool_imap_unordered sigma (fun x => x) xs 0 <> map (fun x => x) xs.
